@@ -21,6 +21,8 @@ CONSTANTS
   AllowDo = TRUE
   AllowIndicate = TRUE
   WObjs = {w1}
+  DupMode = FALSE
+  DupStart = s2
   PoolOnError = FALSE
   IdleCollects = 0
   RtoChanges = 0
